@@ -127,6 +127,10 @@ func (t *Transformer) buildStructConstructor(structType types.Type, fields []fie
 	var paramNames []string
 	for _, f := range fields {
 		paramName := toLowerCamel(f.name)
+		if token.IsKeyword(paramName) {
+			// a field such as Type or Default would give a parameter named by a keyword
+			paramName += "_"
+		}
 		paramNames = append(paramNames, paramName)
 		params = append(params, &ast.Field{
 			Names: []*ast.Ident{ast.NewIdent(paramName)},
